@@ -534,6 +534,45 @@ VARIANTS += [
       "                    right_gene = _add_losses(\n                        layout_state,\n                        right_gene,\n                        mapping[left_gene],\n                        root_species,\n                    )", "LAYOUT-SIDES"),
     T("twin-layout-swap-test-right-child", LAYOUT, "if species_lca.is_ancestor_of(left_species, mapping[right_gene]):", "if not species_lca.is_ancestor_of(root_species.children[1], mapping[right_gene]):"),
 ]
+
+VARIANTS += [
+    M("gain-sets-update-family", USPFS, "        result[object_lca(*leaves)].add(family)", "        result[object_lca(*leaves)].update(family)", "ELEMENT-UPDATE"),
+    M("triples-add-child-none", TREES, "        subtree = tree_from_triples(group_leaves, group_triples)\n\n        if not subtree:\n            return None\n\n        root.add_child(subtree)\n",
+      "        subtree = root.add_child(tree_from_triples(group_leaves, group_triples))\n\n        if not subtree:\n            return None\n", "OPTIONAL-CHECKED"),
+    M("mask-sentinel-truthiness", SUBS, "    child_i = 0\n    mask = 0\n\n    for parent_i, parent_v in enumerate(parent):\n        if child_i == len(child):\n            break\n\n        if child[child_i] == parent_v:\n            mask |= 1 << parent_i\n            child_i += 1\n",
+      "    remaining = iter(child)\n    expected = next(remaining, None)\n    mask = 0\n\n    for parent_i, parent_v in enumerate(parent):\n        if not expected:\n            break\n\n        if expected == parent_v:\n            mask |= 1 << parent_i\n            expected = next(remaining, None)\n",
+      "NONE-SENTINEL-TRUTH"),
+    T("twin-mask-sentinel-is-none", SUBS, "    child_i = 0\n    mask = 0\n\n    for parent_i, parent_v in enumerate(parent):\n        if child_i == len(child):\n            break\n\n        if child[child_i] == parent_v:\n            mask |= 1 << parent_i\n            child_i += 1\n",
+      "    remaining = iter(child)\n    expected = next(remaining, None)\n    mask = 0\n\n    for parent_i, parent_v in enumerate(parent):\n        if expected is None:\n            break\n\n        if expected == parent_v:\n            mask |= 1 << parent_i\n            expected = next(remaining, None)\n"),
+    M("layout-swap-children-in-place", LAYOUT, "                        left_gene, right_gene = right_gene, left_gene\n", "                        root_gene.swap_children()\n                        left_gene, right_gene = root_gene.children\n", "NO-TOPOLOGY-WRITE"),
+    M("uspfs-skip-ties", USPFS, "        for root_species in tqdm(\n            srec_input_bin.species_lca.tree.traverse(),\n            desc=\"Generate solutions\",",
+      "        if min(table[synteny_tree][s][SyntenyAssignment.LCA].value() for s in srec_input_bin.species_lca.tree.traverse()) >= results.value():\n            continue\n\n        for root_species in tqdm(\n            srec_input_bin.species_lca.tree.traverse(),\n            desc=\"Generate solutions\",",
+      "RESULT-UNCONDITIONAL"),
+    T("twin-uspfs-strict-bound", USPFS, "        for root_species in tqdm(\n            srec_input_bin.species_lca.tree.traverse(),\n            desc=\"Generate solutions\",",
+      "        if min(table[synteny_tree][s][SyntenyAssignment.LCA].value() for s in srec_input_bin.species_lca.tree.traverse()) > results.value():\n            continue\n\n        for root_species in tqdm(\n            srec_input_bin.species_lca.tree.traverse(),\n            desc=\"Generate solutions\","),
+    M("fromdict-filter-syntenies", MODEL, "            \"leaf_syntenies\": parse_synteny_mapping(\n                parent[\"object_tree\"],\n                data[\"leaf_syntenies\"],\n            ),",
+      "            \"leaf_syntenies\": parse_synteny_mapping(\n                parent[\"object_tree\"],\n                {k: v for k, v in data[\"leaf_syntenies\"].items() if (parent[\"object_tree\"] & k).is_leaf()},\n            ),", "FIELD-SOURCE"),
+    M("fromdict-merge-inferred", MODEL, "            leaf_object_species = parse_tree_mapping(\n                object_tree, species_tree, data[\"leaf_object_species\"]\n            )",
+      "            leaf_object_species = {\n                **parse_tree_mapping(object_tree, species_tree, data[\"leaf_object_species\"]),\n                **get_species_mapping(object_tree, species_tree),\n            }", "FIELD-SOURCE"),
+    T("twin-fromdict-merge-explicit-last", MODEL, "            leaf_object_species = parse_tree_mapping(\n                object_tree, species_tree, data[\"leaf_object_species\"]\n            )",
+      "            leaf_object_species = {\n                **get_species_mapping(object_tree, species_tree),\n                **parse_tree_mapping(object_tree, species_tree, data[\"leaf_object_species\"]),\n            }"),
+    M("sort-key-drops-empty", SYN, "for part in parts]", "for part in parts if part]", "SORT-KEY-ALIGNED"),
+    M("entry-shares-tag-set", DP, "            self._infos = set(infos)\n", "            self._infos = infos if isinstance(infos, set) else set(infos)\n", "ENTRY-OWNS-TAGS"),
+    M("proxy-memoised-cell", DP, "        entry = self._parent._table  # pylint: disable=protected-access\n\n        for item in self._key:\n            entry = entry[item]\n\n        return entry",
+      "        if getattr(self, \"_resolved\", False):\n            return self._real\n        entry = self._parent._table  # pylint: disable=protected-access\n\n        for item in self._key:\n            entry = entry[item]\n\n        self._real = entry\n        self._resolved = True\n        return entry", "SOLVER-STATELESS", "PROXY-NONE"),
+    M("rmq-clamped-stop", RMQF, "        if start >= stop:\n            return None\n", "        stop = min(stop, len(self.sparse_table[0]) - 1)\n\n        if start >= stop:\n            return None\n", "RMQ-WINDOWS"),
+    M("lca-tour-below-stem", TREES, "        self.traversal = _euler_tour(tree)\n", "        root = tree\n        while len(root.children) == 1:\n            root = root.children[0]\n        self.traversal = _euler_tour(root)\n", "EULER-INDEX"),
+    M("lca-distance-branch-lengths", TREES, "        return (\n            self.level(first) + self.level(second) - 2 * self.level(self(first, second))\n        )", "        return first.get_distance(second)", "DERIVED-QUERIES"),
+    M("layout-loss-result-dropped", LAYOUT, "                    conserv_gene = _add_losses(\n                        layout_state,\n                        conserv_gene,", "                    conserv_anchor = _add_losses(\n                        layout_state,\n                        conserv_gene,", "LAYOUT-SIDES"),
+    M("spfs-ext-clade-only", SPFS, "allowed_species=lambda species, _: species.traverse(\"postorder\"),", "allowed_species=lambda _, obj: reconcile_lca(srec_input).object_species[obj].traverse(\"postorder\"),", "BASE-EXT-SHARE"),
+    M("default-cost-shared", MODEL, "            costs = get_default_cost()\n\n        return {", "            costs = get_default_cost()\n\n        costs[NodeEvent.SPECIATION] = costs.get(NodeEvent.SPECIATION, 0)\n        return {", "SOLVER-STATELESS",
+      note="needs the second edit that makes get_default_cost hand out a module constant"),
+]
+for _v in VARIANTS:
+    if _v.name == "default-cost-shared":
+        _v.edits.append(("def get_default_cost() -> CostValues:\n    \"\"\"Get the default event cost vector.\"\"\"\n    return {", "_DEFAULTS: dict = {}\n\n\ndef get_default_cost() -> CostValues:\n    \"\"\"Get the default event cost vector.\"\"\"\n    return _DEFAULTS\n\n\ndef _unused_defaults():\n    return {"))
+    if _v.name == "layout-loss-result-dropped":
+        _v.edits.append(("                    state[\"anchor_nodes\"].remove(conserv_gene)\n", "                    state[\"anchor_nodes\"].remove(conserv_anchor)\n"))
 # the CLI twin needs a second edit (label in reconcile)
 for _v in VARIANTS:
     if _v.name == "twin-cli-label-in-reconcile":
@@ -683,6 +722,8 @@ CANARY_RULES = (
     "EQ-BY-FIELDS", "READONLY-INPUT", "READONLY-GRAPH", "READONLY-DECODE", "IDENTITY-KEYS", "EMPTY-RESULT-GUARD",
     "RECURSE-FORWARD", "COLOR-SOURCE", "ORDER-PRESERVED", "DISPATCH-KEYS", "COST-PASSTHROUGH", "PRUNE", "SENTINEL",
     "COPY-BEFORE-MUTATE", "FRESH-ATTACH", "FRESH-STARTS", "ESCAPE-TAINT", "PREORDER-STATE", "TABLE-FRESH-CELLS",
+    "NONE-SENTINEL-TRUTH", "OPTIONAL-CHECKED", "NO-TOPOLOGY-WRITE", "ELEMENT-UPDATE", "RESULT-UNCONDITIONAL",
+    "FIELD-SOURCE", "SORT-KEY-ALIGNED", "ENTRY-OWNS-TAGS",
 )
 
 MEMO_CANARY = Variant(
